@@ -122,6 +122,10 @@ PROPS = {
                 "toPairAlign: windows through the gapped reference row, --wrap; non-trivial = a window, a wrap width or a relation is exercised",
     },
     "C08": {
+        "extra_imports": ["Gofasta.Lemmas.Balance"],
+        "extra_theorems": ["Gofasta.Lemmas.fillLoop_inv", "Gofasta.Lemmas.fillLoop_sum_le", "Gofasta.Lemmas.fillLoop_mono",
+                           "Gofasta.Lemmas.fillLoop_complete", "Gofasta.Lemmas.balance_fill_spec", "Gofasta.Lemmas.fillLoop_even",
+                           "Gofasta.Lemmas.balance_even"],
         "streams": {"C08": (600, 10000)},
         "thorough_seeds": 3,
         "shrink": True,
